@@ -306,6 +306,7 @@ def build(spec, group=None):
     mod = types.ModuleType(modname)
     sys.modules[modname] = mod
     b.modules.append(modname)
+    b.tag, b.modname = tag, modname
     nodes = spec["nodes"]
     plain_t = type("plain_%s" % tag, (dr.ComponentType,), {})
     b.types.append(plain_t)
